@@ -735,11 +735,21 @@ var plainSchemas = map[string][]func() any{
 
 // chk is the single check attached to a schema.
 type chk struct {
-	op    string // none | lt | lte | gt | gte | minlen | maxlen
-	bkind string // i64 | f64 | n | big
+	op    string // lt | lte | gt | gte | mul | minlen | maxlen | prefix | refine   ("none" = no check: dropped from the chain)
+	bkind string // i64 | f64 | n | big | h | -
 	bi    int64
 	bf    float64
 	bbig  *big.Int
+	bs    string // prefix
+}
+
+// chainTokens: "<n> (<op> <bkind> <bval>)^n"
+func chainTokens(cs []chk) string {
+	parts := []string{strconv.Itoa(len(cs))}
+	for _, c := range cs {
+		parts = append(parts, c.tokens())
+	}
+	return strings.Join(parts, " ")
 }
 
 func (c chk) tokens() string {
@@ -750,18 +760,90 @@ func (c chk) tokens() string {
 		return fmt.Sprintf("%s f64 %d", c.op, math.Float64bits(c.bf))
 	case "big":
 		return fmt.Sprintf("%s big %s", c.op, c.bbig.String())
+	case "h":
+		return fmt.Sprintf("%s h %s", c.op, hexOrDash(c.bs))
+	case "-":
+		return c.op + " - -"
 	default:
 		return fmt.Sprintf("%s n %d", c.op, c.bi)
 	}
 }
 
-var opMethod = map[string]string{"lt": "Lt", "lte": "Lte", "gt": "Gt", "gte": "Gte", "minlen": "Min", "maxlen": "Max"}
+var opMethod = map[string]string{"lt": "Lt", "lte": "Lte", "gt": "Gt", "gte": "Gte", "minlen": "Min", "maxlen": "Max", "mul": "MultipleOf", "prefix": "StartsWith"}
+
+var bigPtrType = reflect.TypeOf((*big.Int)(nil))
+
+// refinePred is the user refinement of the check chains (Lean: CoerceSchema.refineSpec): integers and big
+// integers: even; floats: whole; bool: true; string: non-empty.
+func refinePred(v any) bool {
+	switch x := v.(type) {
+	case int8:
+		return x%2 == 0
+	case int16:
+		return x%2 == 0
+	case int32:
+		return x%2 == 0
+	case int64:
+		return x%2 == 0
+	case int:
+		return x%2 == 0
+	case uint8:
+		return x%2 == 0
+	case uint16:
+		return x%2 == 0
+	case uint32:
+		return x%2 == 0
+	case uint64:
+		return x%2 == 0
+	case uint:
+		return x%2 == 0
+	case float32:
+		return float32(math.Trunc(float64(x))) == x
+	case float64:
+		return math.Trunc(x) == x
+	case bool:
+		return x
+	case string:
+		return x != ""
+	case *big.Int:
+		return x != nil && x.Bit(0) == 0
+	}
+	panic(fmt.Sprintf("refinePred: %T", v))
+}
+
+// refineFn builds a func(R) bool for the schema's own Refine signature (R = T or *T).
+func refineFn(fnType reflect.Type) reflect.Value {
+	return reflect.MakeFunc(fnType, func(args []reflect.Value) []reflect.Value {
+		v := args[0]
+		for v.Kind() == reflect.Pointer && v.Type() != bigPtrType {
+			if v.IsNil() {
+				return []reflect.Value{reflect.ValueOf(true)}
+			}
+			v = v.Elem()
+		}
+		return []reflect.Value{reflect.ValueOf(refinePred(v.Interface()))}
+	})
+}
+
+func attachAll(schema any, cs []chk) any {
+	for _, c := range cs {
+		schema = attach(schema, c)
+	}
+	return schema
+}
 
 func attach(schema any, c chk) any {
 	if c.op == "none" {
 		return schema
 	}
+	if c.op == "refine" {
+		m := reflect.ValueOf(schema).MethodByName("Refine")
+		return m.Call([]reflect.Value{refineFn(m.Type().In(0))})[0].Interface()
+	}
 	m := reflect.ValueOf(schema).MethodByName(opMethod[c.op])
+	if c.op == "mul" && c.bkind != "big" && c.bi%2 == 1 {
+		m = reflect.ValueOf(schema).MethodByName("Step") // the alias, for odd draws
+	}
 	var arg reflect.Value
 	switch c.bkind {
 	case "i64":
@@ -770,6 +852,8 @@ func attach(schema any, c chk) any {
 		arg = reflect.ValueOf(c.bf)
 	case "big":
 		arg = reflect.ValueOf(new(big.Int).Set(c.bbig))
+	case "h":
+		arg = reflect.ValueOf(c.bs)
 	default:
 		arg = reflect.ValueOf(int(c.bi))
 	}
@@ -809,36 +893,33 @@ func exactMatch(t string, in any) bool {
 	return ty.Kind() == reflect.Pointer && ty.Elem() == want
 }
 
-// runSchema returns the coercing schema's observation and the consistency verdict.
-func runSchema(t string, variant int, c chk, in any) (string, string) {
-	var out, cons string
+// runSchema returns the coercing schema's observation and the PLAIN schema's observation on
+// coerce.To[T](input) (on the input itself when it already has the schema's type): the two sides of C17's
+// third sentence, both on the real code, both with the same check chain.
+func runSchema(t string, variant int, cs []chk, in any) (string, string) {
+	var out, want string
 	pm := hx.Safely(func() {
-		cs := attach(coerceSchemas[t][variant](), c)
-		ps := attach(plainSchemas[t][variant](), c)
-		cv, cerr := parseWith(cs, in)
+		csch := attachAll(coerceSchemas[t][variant](), cs)
+		psch := attachAll(plainSchemas[t][variant](), cs)
+		cv, cerr := parseWith(csch, in)
 		out = obs(cv, cerr)
-		var want string
 		if exactMatch(t, in) {
-			pv, perr := parseWith(ps, in)
+			pv, perr := parseWith(psch, in)
 			want = obs(pv, perr)
 		} else {
 			hv, herr := toGeneric(t, in)
 			if herr != nil {
 				want = "err"
 			} else {
-				pv, perr := parseWith(ps, hv)
+				pv, perr := parseWith(psch, hv)
 				want = obs(pv, perr)
 			}
 		}
-		cons = "c1"
-		if want != out {
-			cons = "c0"
-		}
 	})
 	if pm != "" {
-		return "panic " + strings.ReplaceAll(pm, "\n", " "), "c0"
+		return "panic " + strings.ReplaceAll(pm, "\n", " "), "panic"
 	}
-	return out, cons
+	return out, want
 }
 
 // ---------------------------------------------------------------------------------------------
@@ -1139,6 +1220,53 @@ func bigGrid() []src {
 }
 
 // checkFor picks a check whose bound sits next to the value the coercion should produce.
+// chainFor: the bound check next to the value (as before), then — round 4c — MultipleOf / Step (integer, float and
+// BigInt targets), a prefix (strings), a user refinement (every target); up to four checks.
+func chainFor(r *hx.Rng, t string, v src) []chk {
+	var cs []chk
+	if c := checkFor(r, t, v); c.op != "none" {
+		cs = append(cs, c)
+	}
+	d := v.denote()
+	if r.Chance(30) {
+		switch {
+		case isIntTarget(t):
+			div := hx.Pick(r, []int64{0, 1, -1, 2, -2, 3, 7, 10, 128, 1 << 53, math.MinInt64})
+			if d.class == "rat" && d.r.IsInt() && d.r.Num().IsInt64() && r.Chance(40) {
+				div = d.r.Num().Int64() + int64(r.Intn(3)-1)
+			}
+			cs = append(cs, chk{op: "mul", bkind: "i64", bi: div})
+		case t == "f32" || t == "f64":
+			cs = append(cs, chk{op: "mul", bkind: "f64", bf: hx.Pick(r, []float64{0, 1, 2, 0.5, 0.1, 3, 1e-3, 1e7, -4}), bi: int64(r.Intn(2))})
+		case t == "big":
+			div := hx.Pick(r, []*big.Int{big.NewInt(0), big.NewInt(1), big.NewInt(2), big.NewInt(-3), big.NewInt(10000000), new(big.Int).Lsh(big.NewInt(1), 53), new(big.Int).Lsh(big.NewInt(1), 64)})
+			if d.class == "rat" && d.r.IsInt() && r.Chance(40) {
+				div = new(big.Int).Add(d.r.Num(), big.NewInt(int64(r.Intn(3)-1)))
+			}
+			cs = append(cs, chk{op: "mul", bkind: "big", bbig: div})
+		}
+	}
+	if t == "str" && r.Chance(30) && v.kind != "f32" && v.kind != "f64" {
+		ascii := true
+		for i := 0; i < len(v.s); i++ {
+			if v.s[i] >= 0x80 {
+				ascii = false
+			}
+		}
+		if ascii {
+			p := hx.Pick(r, []string{"", "1", "-", " ", "t", "0x", "12"})
+			if v.kind == "str" && len(v.s) > 0 && r.Chance(50) {
+				p = v.s[:1+r.Intn(len(v.s))]
+			}
+			cs = append(cs, chk{op: "prefix", bkind: "h", bs: p})
+		}
+	}
+	if r.Chance(30) && !(t == "str" && (v.kind == "f32" || v.kind == "f64")) {
+		cs = append(cs, chk{op: "refine", bkind: "-"})
+	}
+	return cs
+}
+
 func checkFor(r *hx.Rng, t string, v src) chk {
 	if r.Chance(25) || t == "bool" {
 		return chk{op: "none", bkind: "n"}
@@ -1475,13 +1603,25 @@ func runC17(c hx.Config) error {
 		o.Count("H:" + v.kind + "->" + t)
 		o.Count("outcome:" + strings.SplitN(ob, " ", 2)[0])
 	}
-	emitS := func(t string, variant int, ck chk, v src) {
-		ob, cons := runSchema(t, variant, ck, v.goValue())
-		ob = denoteObs(t, v, ob)
-		o.Emit(fmt.Sprintf("c17 S %s %s %s %s #variant=%d ptr=%v", t, ck.tokens(), v.tokens(), v.oracle(), variant, v.ptr), ob+" "+cons)
+	emitS := func(t string, variant int, cs []chk, v src) {
+		ob, pob := runSchema(t, variant, cs, v.goValue())
+		ob, pob = denoteObs(t, v, ob), denoteObs(t, v, pob)
+		pt := 0
+		if v.ptr {
+			pt = 1
+		}
+		o.Emit(fmt.Sprintf("c17 S %s %d %s %s %s #variant=%d ptr=%v", t, pt, chainTokens(cs), v.tokens(), v.oracle(), variant, v.ptr), ob+" ~ "+pob)
 		o.Count("S:" + v.kind + "->" + t)
 		o.Count("outcome:" + strings.SplitN(ob, " ", 2)[0])
-		o.Count("consistent:" + cons)
+		o.Count(fmt.Sprintf("chain-length:%d", len(cs)))
+		for _, c := range cs {
+			o.Count("check:" + c.op + ":" + c.bkind)
+		}
+		if ob == pob {
+			o.Count("consistent:c1")
+		} else {
+			o.Count("consistent:c0")
+		}
 	}
 	all := func(v src, schemaPct int) {
 		for _, t := range targets {
@@ -1493,7 +1633,7 @@ func runC17(c hx.Config) error {
 			}
 			if v.kind != "nil" && r.Chance(schemaPct) { // nil input to a schema is C03's business
 				vs := coerceSchemas[t]
-				emitS(t, r.Intn(len(vs)), checkFor(r, t, v), v)
+				emitS(t, r.Intn(len(vs)), chainFor(r, t, v), v)
 			}
 		}
 	}
